@@ -161,8 +161,8 @@ func (in *Interp) schedPoint(kind string) {
 		return
 	}
 	me := in.cur
-	if in.preempts >= in.cfg.PreemptBound {
-		return
+	if kind != "yield" && in.preempts >= in.cfg.PreemptBound {
+		return // voluntary yields are not counted against the pre-emption bound
 	}
 	if in.m.noPreempt > 0 || (in.m.onlyYield && kind != "yield") {
 		return
@@ -180,7 +180,9 @@ func (in *Interp) schedPoint(kind string) {
 	if k == 0 {
 		return
 	}
-	in.preempts++
+	if kind != "yield" {
+		in.preempts++
+	}
 	in.res.Switches++
 	next := others[k-1]
 	in.cur = next
